@@ -24,7 +24,6 @@ import (
 	"github.com/echovault/sugardb/internal/clock"
 	"github.com/echovault/sugardb/verifhook"
 	"log"
-	"sync"
 )
 
 type Engine struct {
@@ -34,7 +33,7 @@ type Engine struct {
 	preambleRW   preamble.ReadWriter
 	appendRW     logstore.ReadWriter
 
-	mut           sync.Mutex
+	mut           verifhook.Mutex
 	logCount      uint64
 	preambleStore *preamble.Store
 	appendStore   *logstore.Store
@@ -111,7 +110,7 @@ func NewAOFEngine(options ...func(engine *Engine)) (*Engine, error) {
 		clock:             clock.NewClock(),
 		syncStrategy:      "everysec",
 		directory:         "",
-		mut:               sync.Mutex{},
+		mut:               verifhook.Mutex{},
 		logCount:          0,
 		startRewriteFunc:  func() {},
 		finishRewriteFunc: func() {},
@@ -152,6 +151,7 @@ func NewAOFEngine(options ...func(engine *Engine)) (*Engine, error) {
 	}
 	engine.appendStore = appendStore
 
+	verifhook.NameLock(&engine.mut, "aof.engine")
 	return engine, nil
 }
 
